@@ -143,7 +143,29 @@ type unwrapper struct{ in error }
 func (u unwrapper) Error() string { return u.in.Error() }
 func (u unwrapper) Unwrap() error { return u.in }
 
-func buildError(r *payload.SplitMix) (error, string) {
+// wrappers whose dynamic type does not support == (a slice / a func field), as value types
+type noteWrap struct {
+	in    error
+	notes []string
+}
+
+func (n noteWrap) Error() string { return n.in.Error() }
+func (n noteWrap) Unwrap() error { return n.in }
+
+type hookCause struct {
+	in error
+	f  func()
+}
+
+func (h hookCause) Error() string { return h.in.Error() }
+func (h hookCause) Cause() error  { return h.in }
+
+type ptrWrap struct{ in error }
+
+func (p *ptrWrap) Error() string { return p.in.Error() }
+func (p *ptrWrap) Unwrap() error { return p.in }
+
+func buildError(r *payload.SplitMix) (error, string, uint64) {
 	var text string
 	switch r.Intn(7) {
 	case 0:
@@ -183,17 +205,51 @@ func buildError(r *payload.SplitMix) (error, string) {
 		}
 	}
 	depth := []int{0, 0, 1, 2, 5, 20, 50}[r.Intn(7)]
+	// runs of the same wrapper type matter as much as mixtures: in a third of the cases one species is used throughout
+	species := -1
+	if r.Intn(3) == 0 {
+		species = r.Intn(6)
+	}
 	for i := 0; i < depth; i++ {
-		switch r.Intn(3) {
+		k := species
+		if k < 0 {
+			k = r.Intn(6)
+		}
+		switch k {
 		case 0:
 			err = causer{err}
 		case 1:
 			err = unwrapper{err}
+		case 2:
+			err = noteWrap{in: err, notes: []string{"n"}}
+		case 3:
+			err = hookCause{in: err, f: func() {}}
+		case 4:
+			err = &ptrWrap{err}
 		default:
 			err = wrapSameText{err}
 		}
 	}
-	return err, fmt.Sprintf("text=%d bytes code=%d via %s depth=%d", len(text), code, kind, depth)
+	return err, fmt.Sprintf("text=%d bytes code=%d via %s depth=%d", len(text), code, kind, depth), code
+}
+
+// codeOf reads the code of an error without the library: the first Code() uint64 found along the
+// Unwrap/Cause chain (the library's documented rule), 0 if there is none.
+func codeOf(err error) uint64 {
+	for i := 0; i < 1000 && err != nil; i++ {
+		if c, ok := err.(interface{ Code() uint64 }); ok {
+			return c.Code()
+		}
+		switch e := err.(type) {
+		case interface{ Unwrap() error }:
+			err = e.Unwrap()
+		case interface{ Cause() error }:
+			err = e.Cause()
+		default:
+			return 0
+		}
+	}
+	return 0
 }
 
 // sameTextOver is an error with its own text that wraps a sentinel error.
@@ -253,8 +309,9 @@ func scenario(id string, seed uint64) runner.Result {
 		req := payload.Make(uint64(call), 0, 0, 0, reqSize)
 		switch {
 		case mode <= 5:
-			p.fail, what = buildError(r)
-			wantText, wantCode, expectErr = p.fail.Error(), drpcerr.Code(p.fail), true
+			var attached uint64
+			p.fail, what, attached = buildError(r)
+			wantText, wantCode, expectErr = p.fail.Error(), attached, true
 		case mode <= 7:
 			what = "success"
 		case mode == 8:
@@ -348,8 +405,8 @@ func scenario(id string, seed uint64) runner.Result {
 			fails = append(fails, fmt.Sprintf("%s: handler/dispatcher failed with %q (code %d) but the client call succeeded", desc, clipS(wantText), wantCode))
 		case expectErr:
 			keptErrs = append(keptErrs, kept{cerr, wantText, desc, wantCode})
-			if cerr.Error() != wantText || drpcerr.Code(cerr) != wantCode {
-				fails = append(fails, fmt.Sprintf("%s: client got error text %q code %d; want text %q code %d", desc, clipS(cerr.Error()), drpcerr.Code(cerr), clipS(wantText), wantCode))
+			if cerr.Error() != wantText || codeOf(cerr) != wantCode || drpcerr.Code(cerr) != wantCode {
+				fails = append(fails, fmt.Sprintf("%s: client got error text %q code %d (drpcerr.Code says %d); want text %q code %d", desc, clipS(cerr.Error()), codeOf(cerr), drpcerr.Code(cerr), clipS(wantText), wantCode))
 			}
 		case cerr != nil:
 			fails = append(fails, fmt.Sprintf("%s: handler returned a response and no error but the client got %q", desc, clipS(cerr.Error())))
@@ -436,9 +493,9 @@ func main() {
 	runner.Main(runner.Check{
 		Property: "C10",
 		Level:    "exploration",
-		Rule:     "one case = 2-5 consecutive calls on one connection against a hand-written four-shape service registered with the real drpcmux; each call draws: shape, outcome (handler error with text in {empty, ASCII, 64 KiB, random bytes, NUL/invalid UTF-8, non-ASCII/CRLF} x code in {none,1,2,12,2^32,2^63,2^64-1} attached by WithCode or a Code() method x wrapping depth in {0,1,2,5,20,50} through Cause/Unwrap chains; success; unknown rpc; undecodable request), k in 0..3 responses before the outcome, request size in {0,10,5000,70000,~1 MiB}; unary calls are parked between their invoke and message writes until the server's answer has arrived in half of the cases; seeded configuration cell. Followed by a probe. Non-trivial: all. Distinct: by configuration and call list.",
+		Rule:     "one case = 2-5 consecutive calls on one connection against a hand-written four-shape service registered with the real drpcmux; each call draws: shape, outcome (handler error with text in {empty, ASCII, 64 KiB, random bytes, NUL/invalid UTF-8, non-ASCII/CRLF} x code in {none,1,2,12,2^32,2^63,2^64-1} attached by WithCode or a Code() method x wrapping depth in {0,1,2,5,20,50} through Cause/Unwrap chains of six wrapper species (value and pointer types, comparable and not, mixed or one species throughout); success; unknown rpc; undecodable request), k in 0..3 responses before the outcome, request size in {0,10,5000,70000,~1 MiB}; unary calls are parked between their invoke and message writes until the server's answer has arrived in half of the cases; seeded configuration cell. Followed by a probe. Non-trivial: all. Distinct: by configuration and call list.",
 		Assumptions: []string{
-			"expected client text is the text of the error the handler returned (errs.Wrap without a class and the wrappers used keep the text); expected code is drpcerr.Code of that error",
+			"expected client text is the text of the error the handler returned (errs.Wrap without a class and the wrappers used keep the text); expected code is the code the scenario attached, read back on the client both by drpcerr.Code and by an independent walk of the Unwrap/Cause chain",
 			"wrapping depth stays below the library's documented 100-step unwrap bound",
 		},
 		Gen:           gen,
